@@ -280,25 +280,15 @@ theorem C07_stops_waiting_for_map_slot (p : Pool) (m : Nat) (r : Req) (h : p.req
     · simp [hc]
     · simp [hc]
   simp only [hcond, if_true]
-  have q0 : Quiet p ((p.modReq m fun x => { x with sched := false }).modReq m fun x =>
-      { x with mapSem := { x.mapSem with waiters := (removeWaiterL m r.mapSem.waiters).2 }, mustCancel := false }) := by
+  generalize (if ((removeWaiterL m r.mapSem.waiters).1 == some WaitSt.granted) = true then _ else _ : Sem × Option Nat) = s2
+  have q0 : Quiet p (((p.modReq m fun x => { x with sched := false }).modReq m fun x =>
+      { x with mapSem := s2.1, mustCancel := false }).schedOpt s2.2) := by
+    refine Quiet.trans ?_ (quiet_schedOpt _ _)
     refine Quiet.trans ?_ (quiet_modReq _ m _ (fun _ => rfl))
     exact quiet_modReq p m _ (fun _ => rfl)
-  refine ⟨?_, ?_⟩
-  · refine Quiet.trans ?_ (quiet_finishMeta _ m _)
-    refine q0.trans ?_
-    split
-    · exact quiet_releaseMap _ _
-    · exact Quiet.refl _
-  · obtain ⟨r0, h0, _⟩ := q0.reqs m r h
-    generalize hq : (if ((removeWaiterL m r.mapSem.waiters).1 == some WaitSt.granted) = true then _ else _ : Pool) = Q
-    have : ∃ r1, Q.reqs[m]? = some r1 := by
-      subst hq
-      split
-      · obtain ⟨r1, h1, _⟩ := (quiet_releaseMap _ m).reqs m r0 h0; exact ⟨r1, h1⟩
-      · exact ⟨r0, h0⟩
-    obtain ⟨r1, h1⟩ := this
-    exact finishMeta_done Q m .ok r1 h1
+  refine ⟨q0.trans (quiet_finishMeta _ m _), ?_⟩
+  obtain ⟨r0, h0, _⟩ := q0.reqs m r h
+  exact finishMeta_done _ m .ok r0 h0
 
 /-- `Task.cancel()` on a live spawner makes its cancellation pending, in every placement: the future it waits on
 is cancelled if there is a pending one, otherwise (not started, running, slot already granted) `must_cancel` is set -/
